@@ -289,8 +289,8 @@ var builtinModules = map[string]func() map[string]ugo.Object{
 	"tiny":    TinyAttrs,
 }
 
-// Program is one generated script with its modules and run inputs.
-type Program struct {
+// EncProgram is one generated script with its modules and run inputs.
+type EncProgram struct {
 	Src      string
 	SrcMods  map[string]string // source modules
 	Builtins []string          // names of builtin modules (sorted)
@@ -305,7 +305,7 @@ type Input struct {
 }
 
 // ModuleMap builds the module map of p and the attribute maps of its builtin modules.
-func (p *Program) ModuleMap() (*ugo.ModuleMap, map[string]map[string]ugo.Object) {
+func (p *EncProgram) ModuleMap() (*ugo.ModuleMap, map[string]map[string]ugo.Object) {
 	mm := ugo.NewModuleMap()
 	attrs := map[string]map[string]ugo.Object{}
 	for _, n := range p.Builtins {
@@ -324,7 +324,7 @@ func (p *Program) ModuleMap() (*ugo.ModuleMap, map[string]map[string]ugo.Object)
 	return mm, attrs
 }
 
-type progGen struct {
+type encProgGen struct {
 	r        *Rand
 	b        strings.Builder
 	n        int
@@ -338,7 +338,7 @@ type progGen struct {
 	small    bool
 }
 
-func (g *progGen) pick(xs []string) string { return xs[g.r.Intn(len(xs))] }
+func (g *encProgGen) pick(xs []string) string { return xs[g.r.Intn(len(xs))] }
 
 var intLits = []string{"0", "1", "-1", "2", "63", "64", "-64", "-65", "255", "256", "65535", "2147483647", "2147483648",
 	"4294967296", "9007199254740993", "9223372036854775807", "(-9223372036854775807-1)", "-9223372036854775807",
@@ -350,14 +350,14 @@ var charLits = []string{`'a'`, `'\n'`, `'\\'`, `'\''`, `'é'`, `'é'`, `'😀'`,
 var strLits = []string{`""`, `"a"`, `"a\tb\n"`, `"\"q\""`, `"\x00\xff"`, `"é\U0001F600"`, "`raw\\n`", `"héllo wörld"`,
 	`"__module_name__"`, `"line1\nline2"`, `"\\"`, `"%d %s"`}
 
-func (g *progGen) intLit() string {
+func (g *encProgGen) intLit() string {
 	if g.r.Intn(4) == 0 {
 		return fmt.Sprint(int64(g.r.U64() >> uint(g.r.Intn(64))))
 	}
 	return g.pick(intLits)
 }
 
-func (g *progGen) strLit() string {
+func (g *encProgGen) strLit() string {
 	switch g.r.Intn(12) {
 	case 0:
 		return `"` + strings.Repeat("x", 1+g.r.Intn(300)) + `"`
@@ -368,7 +368,7 @@ func (g *progGen) strLit() string {
 	return g.pick(strLits)
 }
 
-func (g *progGen) scalarLit() string {
+func (g *encProgGen) scalarLit() string {
 	switch g.r.Intn(8) {
 	case 0:
 		return g.pick(uintLits)
@@ -384,7 +384,7 @@ func (g *progGen) scalarLit() string {
 	return g.intLit()
 }
 
-func (g *progGen) valueLit(depth int) string {
+func (g *encProgGen) valueLit(depth int) string {
 	if depth <= 0 || g.r.Intn(3) > 0 {
 		return g.scalarLit()
 	}
@@ -410,7 +410,7 @@ func (g *progGen) valueLit(depth int) string {
 	return "{" + strings.Join(parts, ", ") + "}"
 }
 
-func (g *progGen) line(format string, args ...interface{}) {
+func (g *encProgGen) line(format string, args ...interface{}) {
 	// random vertical / horizontal whitespace and comments shift source positions
 	switch g.r.Intn(6) {
 	case 0:
@@ -424,9 +424,9 @@ func (g *progGen) line(format string, args ...interface{}) {
 	g.b.WriteString("\n")
 }
 
-func (g *progGen) id() int { g.n++; return g.n }
+func (g *encProgGen) id() int { g.n++; return g.n }
 
-func (g *progGen) imp(name string) string {
+func (g *encProgGen) imp(name string) string {
 	v := "mod_" + name
 	if !g.imported[name] {
 		g.imported[name] = true
@@ -435,7 +435,7 @@ func (g *progGen) imp(name string) string {
 	return v
 }
 
-func (g *progGen) needSrc(name string) {
+func (g *encProgGen) needSrc(name string) {
 	if _, ok := g.srcmods[name]; ok {
 		return
 	}
@@ -476,54 +476,54 @@ return {up: up, call: func(f) { return f() }}
 type snippet struct {
 	name string
 	w    int
-	f    func(g *progGen)
+	f    func(g *encProgGen)
 }
 
 var snippets = []snippet{
-	{"ints", 3, func(g *progGen) {
+	{"ints", 3, func(g *encProgGen) {
 		a, b := g.intLit(), g.intLit()
 		g.line("out = append(out, %s, %s, %s %s %s)", a, b, a, g.pick([]string{"+", "-", "*", "&", "|", "^"}), b)
 	}},
-	{"uints", 2, func(g *progGen) {
+	{"uints", 2, func(g *encProgGen) {
 		a, b := g.pick(uintLits), g.pick(uintLits)
 		g.line("out = append(out, %s, %s + %s, %s * 3u)", a, a, b, b)
 	}},
-	{"floats", 3, func(g *progGen) {
+	{"floats", 3, func(g *encProgGen) {
 		a, b := g.pick(floatLits), g.pick(floatLits)
 		g.line("out = append(out, %s, %s, %s * %s, string(%s))", a, b, a, b, a)
 	}},
-	{"chars", 2, func(g *progGen) {
+	{"chars", 2, func(g *encProgGen) {
 		a := g.pick(charLits)
 		g.line("out = append(out, %s, %s + 1, string(%s))", a, g.pick(charLits), a)
 	}},
-	{"strings", 3, func(g *progGen) {
+	{"strings", 3, func(g *encProgGen) {
 		a, b := g.strLit(), g.strLit()
 		g.line("out = append(out, %s, %s + %s, len(%s))", a, a, b, b)
 	}},
-	{"bytes", 2, func(g *progGen) {
+	{"bytes", 2, func(g *encProgGen) {
 		g.line("out = append(out, bytes(%s), bytes(1, 2, 255), bytes(), bytes(%s)[0:0])", g.strLit(), `"ab"`)
 	}},
-	{"containers", 4, func(g *progGen) {
+	{"containers", 4, func(g *encProgGen) {
 		n := g.id()
 		g.line("v%d := %s", n, "["+g.valueLit(3)+", "+g.valueLit(2)+"]")
 		g.line("out = append(out, v%d, v%d[0], len(v%d))", n, n, n)
 		g.line("w%d := {a: %s, \"b c\": %s}", n, g.valueLit(2), g.scalarLit())
 		g.line("out = append(out, w%d, w%d.a, w%d[\"b c\"])", n, n, n)
 	}},
-	{"closure", 3, func(g *progGen) {
+	{"closure", 3, func(g *encProgGen) {
 		n := g.id()
 		g.line("mk%d := func(a) { c := %s; return func(b) { c += 1; return [a, b, c] } }", n, g.intLit())
 		g.line("h%d := mk%d(%s)", n, n, g.scalarLit())
 		g.line("out = append(out, h%d(1), h%d(%s))", n, n, g.scalarLit())
 	}},
-	{"variadic", 3, func(g *progGen) {
+	{"variadic", 3, func(g *encProgGen) {
 		n := g.id()
 		g.line("va%d := func(x, ...r) { return [x, len(r), r] }", n)
 		g.line("vb%d := func(...r) { return r }", n)
 		g.line("sp%d := [%s, 4]", n, g.scalarLit())
 		g.line("out = append(out, va%d(1), va%d(1, 2, %s), va%d(0, ...sp%d), vb%d(), vb%d(%s), vb%d(...[1, %s]))", n, n, g.scalarLit(), n, n, n, n, g.scalarLit(), n, g.scalarLit())
 	}},
-	{"nestedfn", 2, func(g *progGen) {
+	{"nestedfn", 2, func(g *encProgGen) {
 		n := g.id()
 		g.line("nf%d := func(a, b) {", n)
 		g.line("  l1 := func(c) {")
@@ -534,7 +534,7 @@ var snippets = []snippet{
 		g.line("}")
 		g.line("out = append(out, nf%d(1, 2), nf%d(%s, 3))", n, n, g.pick([]string{"1", "0.5", "2u"}))
 	}},
-	{"loop", 3, func(g *progGen) {
+	{"loop", 3, func(g *encProgGen) {
 		n := g.id()
 		g.line("acc%d := %s", n, g.pick([]string{"0", "1", "0.5", "\"\""}))
 		g.line("for i := 0; i < %d; i++ {", 1+g.r.Intn(9))
@@ -544,13 +544,13 @@ var snippets = []snippet{
 		g.line("}")
 		g.line("out = append(out, acc%d)", n)
 	}},
-	{"forin", 2, func(g *progGen) {
+	{"forin", 2, func(g *encProgGen) {
 		n := g.id()
 		g.line("fi%d := []", n)
 		g.line("for k, v in %s { fi%d = append(fi%d, k, v) }", g.pick([]string{"[10, 20, 30]", `"héy"`, "{only: 1}", "bytes(7, 8)", "[]"}), n, n)
 		g.line("out = append(out, fi%d)", n)
 	}},
-	{"try", 3, func(g *progGen) {
+	{"try", 3, func(g *encProgGen) {
 		n := g.id()
 		g.line("try {")
 		g.line("  %s", g.pick([]string{`throw error("thrown")`, `throw "plain string"`, "z := 0; out = append(out, 1 / z)", "out = append(out, [1][3])", "out = append(out, 1)", "x := 5; x()"}))
@@ -560,7 +560,7 @@ var snippets = []snippet{
 		g.line("  out = append(out, \"fin%d\")", n)
 		g.line("}")
 	}},
-	{"trynest", 1, func(g *progGen) {
+	{"trynest", 1, func(g *encProgGen) {
 		n := g.id()
 		g.line("tn%d := func(x) {", n)
 		g.line("  try {")
@@ -569,7 +569,7 @@ var snippets = []snippet{
 		g.line("}")
 		g.line("out = append(out, tn%d(0), tn%d(5))", n, n)
 	}},
-	{"uncaught", 5, func(g *progGen) {
+	{"uncaught", 5, func(g *encProgGen) {
 		n := g.id()
 		errExpr := g.pick([]string{"1 / (a - a)", "[1, 2][a + 5]", "a()", "{}.x.y.z", "1 % (a - a)", `"s" - a`, "undefined + a"})
 		depth := 1 + g.r.Intn(3)
@@ -587,10 +587,10 @@ var snippets = []snippet{
 		g.line("  out = append(out, e%d_%d(%s))", n, depth-1, g.pick([]string{"1", "p0", "2"}))
 		g.line("}")
 	}},
-	{"toplevel-err", 1, func(g *progGen) {
+	{"toplevel-err", 1, func(g *encProgGen) {
 		g.line("if p0 == %d { out = append(out, %s) }", g.r.Intn(4), g.pick([]string{"1 / (p0 - p0)", "p0[1]", "p0.x.y", "[1][p0 + 1]"}))
 	}},
-	{"params", 3, func(g *progGen) {
+	{"params", 3, func(g *encProgGen) {
 		s := "p0"
 		if g.hasP1 {
 			s += ", p1"
@@ -600,14 +600,14 @@ var snippets = []snippet{
 		}
 		g.line("out = append(out, %s)", s)
 	}},
-	{"global", 2, func(g *progGen) {
+	{"global", 2, func(g *encProgGen) {
 		if g.hasG {
 			g.line("out = append(out, g0, g0 == undefined ? \"nog\" : \"g\")")
 		} else {
 			g.line("out = append(out, 1 ? 2 : 3)")
 		}
 	}},
-	{"consts", 2, func(g *progGen) {
+	{"consts", 2, func(g *encProgGen) {
 		n := g.id()
 		g.line("const (")
 		g.line("  ca%d = iota", n)
@@ -617,7 +617,7 @@ var snippets = []snippet{
 		g.line(")")
 		g.line("out = append(out, ca%d, cb%d, cc%d, cd%d)", n, n, n, n)
 	}},
-	{"constfn", 1, func(g *progGen) {
+	{"constfn", 1, func(g *encProgGen) {
 		n := g.id()
 		g.line("const (")
 		g.line("  cf%d = func(x) { return [x, %s] }", n, g.scalarLit())
@@ -625,33 +625,33 @@ var snippets = []snippet{
 		g.line(")")
 		g.line("out = append(out, cf%d(1), cg%d(2))", n, n)
 	}},
-	{"logic", 2, func(g *progGen) {
+	{"logic", 2, func(g *encProgGen) {
 		g.line("out = append(out, p0 && %s, p0 || %s, !p0, p0 == %s, p0 != %s)", g.scalarLit(), g.scalarLit(), g.scalarLit(), g.scalarLit())
 	}},
-	{"slice", 1, func(g *progGen) {
+	{"slice", 1, func(g *encProgGen) {
 		g.line("out = append(out, %s[1:3], [1, 2, 3, 4][:2], bytes(\"abcd\")[2:])", `"abcdef"`)
 	}},
-	{"std-strings", 2, func(g *progGen) {
+	{"std-strings", 2, func(g *encProgGen) {
 		g.builtins["strings"] = true
 		m := g.imp("strings")
 		g.line("out = append(out, %s.ToUpper(%s), %s.Repeat(\"ab\", 3), %s.Contains(\"hello\", \"ell\"), %s.Split(\"a,b,c\", \",\"))", m, g.strLit(), m, m, m)
 	}},
-	{"std-time", 1, func(g *progGen) {
+	{"std-time", 1, func(g *encProgGen) {
 		g.builtins["time"] = true
 		m := g.imp("time")
 		g.line("out = append(out, %s.Second, %s.March, %s.DurationString(%s.Second * 90), %s.RFC3339)", m, m, m, m, m)
 	}},
-	{"std-fmt", 1, func(g *progGen) {
+	{"std-fmt", 1, func(g *encProgGen) {
 		g.builtins["fmt"] = true
 		m := g.imp("fmt")
 		g.line("out = append(out, %s.Sprintf(\"%%d|%%s|%%v\", %s, %s, [1, 2.5]), %s.Sprint(1, \"a\"))", m, g.intLit(), g.strLit(), m)
 	}},
-	{"std-json", 1, func(g *progGen) {
+	{"std-json", 1, func(g *encProgGen) {
 		g.builtins["json"] = true
 		m := g.imp("json")
 		g.line("out = append(out, string(%s.Marshal([1, \"a\", {k: %s}])), %s.Unmarshal(bytes(\"[1,2,{\\\"a\\\":null}]\")))", m, g.intLit(), m)
 	}},
-	{"src-m1", 3, func(g *progGen) {
+	{"src-m1", 3, func(g *encProgGen) {
 		g.needSrc("m1")
 		m := g.imp("m1")
 		g.line("out = append(out, %s.add(1, %s), %s.mk(%s)(), %s.names)", m, g.intLit(), m, g.intLit(), m)
@@ -662,7 +662,7 @@ var snippets = []snippet{
 			g.line("if p0 == %d { %s.thrower(%s) }", g.r.Intn(3), m, g.strLit())
 		}
 	}},
-	{"src-m2", 2, func(g *progGen) {
+	{"src-m2", 2, func(g *encProgGen) {
 		g.needSrc("m2")
 		m := g.imp("m2")
 		g.line("out = append(out, %s.k, %s.pi, %s.name, %s.bad(0))", m, m, m, m)
@@ -670,7 +670,7 @@ var snippets = []snippet{
 			g.line("out = append(out, %s.div(10, p0))", m)
 		}
 	}},
-	{"src-m3", 1, func(g *progGen) {
+	{"src-m3", 1, func(g *encProgGen) {
 		g.needSrc("m3")
 		m := g.imp("m3")
 		g.line("out = append(out, %s.up(\"abc\"), %s.up(\"x\", 1, 2), %s.call(func() { return %s }))", m, m, m, g.scalarLit())
@@ -678,7 +678,7 @@ var snippets = []snippet{
 			g.line("if p0 == 1 { %s.call(func() { return [][1] }) }", m)
 		}
 	}},
-	{"cust", 3, func(g *progGen) {
+	{"cust", 3, func(g *encProgGen) {
 		name := "cust"
 		if g.r.Intn(3) == 0 {
 			name = "custg"
@@ -709,7 +709,7 @@ var snippetTotal = func() int {
 	return t
 }()
 
-func (g *progGen) pickSnippet() snippet {
+func (g *encProgGen) pickSnippet() snippet {
 	x := g.r.Intn(snippetTotal)
 	for _, s := range snippets {
 		if x < s.w {
@@ -725,8 +725,8 @@ var argPool = []ugo.Object{ugo.Int(0), ugo.Int(1), ugo.Int(2), ugo.Int(3), ugo.S
 
 // GenProgram generates one program; small programs keep their encoding short
 // (bases of the `dec` stream).
-func GenProgram(r *Rand, small bool) *Program {
-	g := &progGen{r: r, builtins: map[string]bool{}, srcmods: map[string]string{}, feat: map[string]bool{}, imported: map[string]bool{}, small: small}
+func GenProgram(r *Rand, small bool) *EncProgram {
+	g := &encProgGen{r: r, builtins: map[string]bool{}, srcmods: map[string]string{}, feat: map[string]bool{}, imported: map[string]bool{}, small: small}
 	switch r.Intn(4) {
 	case 0:
 		g.line("param p0")
@@ -767,7 +767,7 @@ func GenProgram(r *Rand, small bool) *Program {
 		g.line("out = append(out, %s.k, %s.f(1))", m, m)
 	}
 	g.line("return out")
-	p := &Program{Src: g.b.String(), SrcMods: g.srcmods, HasGob: g.builtins["custg"]}
+	p := &EncProgram{Src: g.b.String(), SrcMods: g.srcmods, HasGob: g.builtins["custg"]}
 	for b := range g.builtins {
 		p.Builtins = append(p.Builtins, b)
 	}
@@ -798,12 +798,12 @@ func GenProgram(r *Rand, small bool) *Program {
 }
 
 // FixedPrograms are hand-written regression programs run in addition.
-func FixedPrograms() []*Program {
+func FixedPrograms() []*EncProgram {
 	in := []Input{{}, {Args: []ugo.Object{ugo.Int(1)}}, {Globals: ugo.Map{"g0": ugo.Int(1)}, Args: []ugo.Object{ugo.Int(2), ugo.Int(3)}}}
-	mk := func(src string, builtins ...string) *Program {
-		return &Program{Src: src, SrcMods: map[string]string{}, Builtins: builtins, Inputs: in, Feat: []string{"fixed"}}
+	mk := func(src string, builtins ...string) *EncProgram {
+		return &EncProgram{Src: src, SrcMods: map[string]string{}, Builtins: builtins, Inputs: in, Feat: []string{"fixed"}}
 	}
-	return []*Program{
+	return []*EncProgram{
 		mk("a := -0.0; return string(a)"),
 		mk("return [-0.0, 0.0, 1/(-0.0 + 1.0)]"),
 		mk("return"),
